@@ -1,5 +1,5 @@
 (* Extraction of the segmented renderer over the LogQL planner model (property C10, tree-level tie).
    Directives: ExtrOcamlBasic + ExtrOcamlString only; N, Z, positive, nat stay inductive. *)
 From Coq Require Import Extraction ExtrOcamlBasic ExtrOcamlString.
-From Qryn Require Import lib.Strs model.Sql model.SqlRender model.Logql model.LogqlPlan model.LogqlCases model.SqlPieces model.SqlPiecesCases.
-Extraction "c10pieces.ml" log_pieces script_pieces.
+From Qryn Require Import lib.Strs model.Sql model.SqlRender model.Logql model.LogqlPlan model.LogqlCases model.SqlPieces model.SqlPiecesCases model.LogqlVariantB.
+Extraction "c10pieces.ml" log_pieces script_pieces script_variantb.
